@@ -10,9 +10,9 @@ class AttributeChannel(Harness):
     name = 'attribute.write_read'; property_id = 'C04'
     entry = ['writer::driver::write_start_tag', 'reader::driver::get_attribute', 'reader::driver::get_attribute_value']
     def __init__(self, tier):
-        self.maxn = 3 if tier == 'quick' else 4
+        self.maxn = 4 if tier == 'quick' else 5
         self.doc = 'an attribute value of 1..%d symbolic characters written with writer::driver::write_start_tag and read back with reader::driver::get_attribute, twice (two generations), quick-xml by contract model (escape on extend_attributes, raw values from attributes(), unescape)' % self.maxn
-        self.bounds = {'value_chars': [1, self.maxn], 'alphabet': 'every character U+0020..U+007E plus U+00E9 (all XML-special characters are inside)', 'generations': 2}
+        self.bounds = {'value_chars': [1, self.maxn], 'alphabet': 'tab, line feed, carriage return, every character U+0020..U+007E, and U+00E9 (all XML-special characters are inside)', 'generations': 2}
     def setup(self, it): xmlmodel.install(it)
     def roundtrip(self, it, value):
         w = xmlmodel.Recorder()
@@ -24,8 +24,8 @@ class AttributeChannel(Harness):
         return o
     def run(self, it, ctx, res):
         n = ctx.sym_int('len', 1, self.maxn); n = next(k for k in range(1, self.maxn + 1) if ctx.branch(n == k))
-        cs = [ctx.sym_int('v%d' % i, 32, 0xE9) for i in range(n)]
-        for c in cs: ctx.define(z3.Or(c <= 126, c == 0xE9))
+        cs = [ctx.sym_int('v%d' % i, 9, 0xE9) for i in range(n)]
+        for c in cs: ctx.define(z3.Or(c == 9, c == 10, c == 13, z3.And(c >= 32, c <= 126), c == 0xE9))
         try:
             g1 = self.roundtrip(it, cs)
             if g1.variant != 1: self.fail(ctx, res, 'attribute-found', 'attribute lost', info={'len': n}); return
@@ -45,5 +45,12 @@ class AttributeChannel(Harness):
         want = 'location=%s ' % case['text']
         return not all(g.startswith(want) for g in gens), 'hyperlink location %r over three save/load generations: %r' % (case['text'], gens)
 
+from harness.c05 import ColumnsTrip
+class ColumnsResave(ColumnsTrip):
+    """the <cols> block of a loaded sheet is rewritten from the column records: everything the records model (bestFit too) must come back"""
+    name = 'columns.write_read'; property_id = 'C04'
+    fields = ('width', 'hidden', 'best_fit', 'style')
+
 def harnesses(tier):
-    return [AttributeChannel(tier)]
+    return [AttributeChannel(tier), ColumnsResave(tier)]
+OPTIONS = {'want_smir': True}
